@@ -119,6 +119,7 @@ class Executor:
         self.inlining = set()
         self.side_queries = 0
         self.yields = []
+        self.used = set()        # call-site contracts and axioms relied upon on this path (mechanical scan for the evidence)
         self.notes = []
         self.forker = None       # set by verify.py: explores alternatives in forked child processes
         T.reset_names()
@@ -481,6 +482,25 @@ class Executor:
             st = T.int_val(sl.step.t)
             if st == -1 and isinstance(sl.start, VNone) and isinstance(sl.stop, VNone):
                 return self.list_reverse(lst)
+            if st == -1:
+                # lst[start:stop:-1] == reversed(lst)[n-1-start' : n-1-stop'] with start', stop' as slice.indices(n)
+                # normalises them for a negative step (lower bound -1, upper bound n-1)
+                n = lst.length()
+
+                def adjust(v, default):
+                    if isinstance(v, VNone):
+                        return default
+                    t = v.t
+                    if self.branch(t < 0):
+                        t = z3.simplify(t + n)
+                        return T.I(-1) if self.branch(t < 0) else t
+                    return z3.simplify(n - 1) if self.branch(t >= n) else t
+                a = adjust(sl.start, z3.simplify(n - 1))
+                b = adjust(sl.stop, T.I(-1))
+                lo, hi = z3.simplify(n - 1 - a), z3.simplify(n - 1 - b)
+                if not self.branch(lo < hi):
+                    return VList([], lst.is_tuple)
+                return self.list_sub(self.list_reverse(lst), lo, hi)
             if st != 1:
                 raise Unsupported('slice step')
         n = lst.length()
@@ -620,6 +640,8 @@ class Executor:
             return z3.BoolVal(bool(v.s))
         if isinstance(v, (VClosure, VBuiltin, VClass, VObject, VBox, VLayer)):
             return z3.BoolVal(True)
+        if isinstance(v, VOb):
+            return T.ob_truthy(v.t)     # wire values are arbitrary: either truth value is possible
         raise Unsupported('truth value of %r' % (v,))
 
     def eq(self, a, b):
@@ -675,6 +697,8 @@ class Executor:
         if type(a) is not type(b) and not (isinstance(a, (VList, VTuple)) and isinstance(b, (VList, VTuple))):
             self.prove(name + ':same-kind(%s,%s)' % (a.kind, b.kind), False)
             return
+        if isinstance(a, VStr) and (a.s is None or b.s is None):
+            return      # names / messages built by str.format are outside the model
         if isinstance(a, (VInt, VBool, VTy, VBox, VOb, VNone, VStr)):
             self.prove(name, self.eq(a, b))
         elif isinstance(a, VReal):
@@ -709,12 +733,25 @@ class Executor:
             self.prove_equal(name + '.offsets', a.offsets, b.offsets)
             self.prove_equal(name + '.layers', a.layers, b.layers)
         elif isinstance(a, VObject):
-            keys = sorted(set(a.attrs) | set(b.attrs))
-            for k in keys:
-                if k not in a.attrs or k not in b.attrs:
-                    self.prove(name + ':attr-' + k, False)
-                else:
-                    self.prove_equal(name + '.' + k, a.attrs[k], b.attrs[k])
+            # records may refer to themselves (a box is the diagram whose only box is itself): a pair under comparison
+            # is not compared again below itself (equality of cyclic records is the greatest fixed point)
+            seen = getattr(self, '_eq_seen', None)
+            top = seen is None
+            if top:
+                seen = self._eq_seen = set()
+            if (id(a), id(b)) in seen:
+                return
+            seen.add((id(a), id(b)))
+            try:
+                keys = sorted(set(a.attrs) | set(b.attrs))
+                for k in keys:
+                    if k not in a.attrs or k not in b.attrs:
+                        self.prove(name + ':attr-' + k, False)
+                    else:
+                        self.prove_equal(name + '.' + k, a.attrs[k], b.attrs[k])
+            finally:
+                if top:
+                    self._eq_seen = None
         else:
             raise Unsupported('prove_equal on %s' % a.kind)
 
@@ -760,6 +797,13 @@ class Interp:
         args = list(args)
         kwargs = dict(kwargs)
         names = [p.arg for p in a.posonlyargs + a.args]
+        star = None
+        if args and isinstance(args[-1], VStar):
+            # f(a, b, *values) with values of symbolic length: the explicit arguments fill the named parameters,
+            # the star fills *vararg (spilling a symbolic tuple into named parameters is outside the model)
+            star = args.pop()
+            if len(args) != len(names) or not a.vararg or a.kwonlyargs or kwargs:
+                raise Unsupported('f(*values) of symbolic length into named parameters (%s)' % qualname)
         defaults = [None] * (len(names) - len(a.defaults)) + list(a.defaults)
         dframe = Frame(qualname, {})       # defaults are evaluated in the module of the function
         for name, default in zip(names, defaults):
@@ -771,7 +815,9 @@ class Interp:
                 env.set(name, self.eval(default, env, dframe))
             else:
                 raise PyRaise('TypeError', 'missing argument %s of %s' % (name, qualname))
-        if a.vararg:
+        if a.vararg and star is not None:
+            env.set(a.vararg.arg, self.world.as_wire_tuple(self, star.seq))
+        elif a.vararg:
             env.set(a.vararg.arg, VList.lit(args) if True else None)
             env.lookup(a.vararg.arg).is_tuple = True
         elif args:
@@ -1185,7 +1231,11 @@ class Interp:
         args = []
         for a in e.args:
             if isinstance(a, ast.Starred):
-                args.extend(self.world.iterate_static(self, self.eval(a.value, env, frame)))
+                sv = self.eval(a.value, env, frame)
+                if len(e.args) == 1 and (isinstance(sv, VTy) or (isinstance(sv, VTuple) and getattr(sv, 'wires', False))):
+                    args.append(VStar(sv))        # a tuple of wire values of symbolic length
+                    continue
+                args.extend(self.world.iterate_static(self, sv))
             else:
                 args.append(self.eval(a, env, frame))
         kwargs = {}
@@ -1300,6 +1350,9 @@ class Interp:
             return w.list_repeat(self, lst, k)
         if isinstance(op, ast.MatMult):
             return w.call_method(self, a, 'tensor', [b], {})
+        if isinstance(op, ast.Add) and (getattr(a, 'cls', None) == 'tuple' or getattr(b, 'cls', None) == 'tuple'):
+            ta, tb = w.as_wire_tuple(self, a), w.as_wire_tuple(self, b)
+            return VTy(T.ty_concat(ta.t, tb.t), cls='tuple')
         if isinstance(op, (ast.RShift, ast.LShift)) and isinstance(a, VTy) and isinstance(b, VTy):
             return w.ty_slash(self, a, b, 'under' if isinstance(op, ast.RShift) else 'over')
         if isinstance(op, ast.RShift):
